@@ -369,12 +369,14 @@ def _bed_text(bed):
 
 
 def _rows(cnarr):
+    """the table as exact numbers; a NaN / infinite depth or log2 is reported as such (no row can carry it)"""
     rows = []
     for x in cnarr.data.itertuples(index=False):
-        lg = float(x.log2)
-        rows.append([str(x.chromosome), int(x.start), int(x.end), str(x.gene), frac(float(x.depth)), frac(lg),
-                     frac(2.0 ** lg)])
-    return rows
+        lg, dp = float(x.log2), float(x.depth)
+        if not (math.isfinite(lg) and math.isfinite(dp)):
+            return {"nonfinite": [str(x.chromosome), int(x.start), int(x.end), str(x.gene), repr(dp), repr(lg)]}
+        rows.append([str(x.chromosome), int(x.start), int(x.end), str(x.gene), frac(dp), frac(lg), frac(2.0 ** lg)])
+    return {"rows": rows}
 
 
 def run_impl(case):
@@ -405,11 +407,12 @@ def run_impl(case):
             coverage.to_chunks = parallel.to_chunks if size == 5000 else functools.partial(parallel.to_chunks, chunk_size=size)
             try:
                 cn = coverage.do_coverage(bed, bam, by_count=(algo == "count"), min_mapq=i["q"], processes=procs)
-                res.append({"rows": _rows(cn)})
             except Exception as e:  # noqa: BLE001 -- the model says whether this refusal is expected
                 res.append({"err": type(e).__name__, "msg": str(e)[:200]})
+                continue
             finally:
                 coverage.to_chunks = parallel.to_chunks
+            res.append(_rows(cn))
         return res
     finally:
         tempfile.tempdir = old_tmp
@@ -454,6 +457,9 @@ def judge(case, impl, resp):
         if "err" in r:
             # the property promises a row for every bin of a well-formed regions file
             spec.append("raises_" + r["err"])
+            continue
+        if "nonfinite" in r:
+            spec.append("depth_and_log2_are_finite_numbers")
             continue
         mr, ir = m["rows"], r["rows"]
         if len(mr) != len(ir):
